@@ -13,12 +13,16 @@ tvars == <<vars, l>>
 Mark(n) == TLCSet(42, IF TLCGet(42) > n THEN TLCGet(42) ELSE n)
 IsEvent(e) == l <= Len(Trace) /\ Trace[l].ev = e /\ l' = l + 1
 
-TInit == /\ via = "device" /\ dev = GoodDevice /\ prov = "bytes"
+TInit == /\ via = "device" /\ dev = GoodDevice /\ prov = "bytes" /\ prior = "none"
          /\ pc = "done" /\ ioctls = <<>> /\ opened = FALSE /\ result = "idle" /\ l = 1 /\ TLCSet(42, 1)
 
 TCall == /\ IsEvent("Call") /\ pc = "done"
          /\ via' = Trace[l].input.via /\ dev' = Trace[l].input.dev /\ prov' = Trace[l].input.prov
-         /\ pc' = "start" /\ ioctls' = <<>> /\ opened' = FALSE /\ result' = "none"
+         /\ prior' = Trace[l].input.prior
+         /\ pc' = (IF Trace[l].input.prior = "good" THEN "prior" ELSE "start") /\ ioctls' = <<>> /\ opened' = FALSE /\ result' = "none"
+
+\* the earlier call returned exactly the device's quote
+TPrior == /\ IsEvent("Prior") /\ PriorCall /\ Trace[l].kind = "data" /\ Trace[l].dataOk
 
 Silent == /\ l <= Len(Trace) /\ UNCHANGED l /\ (Start \/ AskSupported)
 
@@ -33,7 +37,7 @@ TIoctl == /\ IsEvent("Ioctl")
 \* the fall-back's attempt to open the configured device path; its result is returned next
 TOpen == /\ IsEvent("Open") /\ pc = "fallback"
          /\ opened' = TRUE /\ pc' = "fail"
-         /\ UNCHANGED <<via, dev, prov, ioctls, result>>
+         /\ UNCHANGED <<via, dev, prov, prior, ioctls, result>>
 
 TReturn == /\ IsEvent("Return")
            /\ \/ ReturnData \/ ReturnErr \/ ProviderQuote
@@ -43,7 +47,7 @@ TReturn == /\ IsEvent("Return")
            /\ Trace[l].parsedOk                                          \* GetQuote = Parse o GetRawQuote
 
 \* the high-water mark is advanced only by a step that satisfied every conjunct of its action
-TNext == (TCall \/ Silent \/ TIoctl \/ TOpen \/ TReturn) /\ Mark(l')
+TNext == (TCall \/ TPrior \/ Silent \/ TIoctl \/ TOpen \/ TReturn) /\ Mark(l')
 TSpec == TInit /\ [][TNext]_tvars
 TraceAccepted == PrintT(<<"HWM", TLCGet(42)>>) /\ TLCGet(42) = Len(Trace) + 1
 =================================================================================
